@@ -13,7 +13,7 @@ from vf.props.c04 import oob_error_ok
 PROPERTY = "C08"
 BUDGET = {"quick": 2400, "thorough": 6000}
 RULE = ("World kind {SpaceWorld, DiscreteWorld, LineWorld, GridWorld} x per-axis extent (0 or >= 1, deliberately unequal) x wrap "
-        "flag; 1-4 agents; histories (1-30 ops) of add(pos), move(delta: small / edge-crossing / multi-lap +-(3*extent+1) / far "
+        "flag; 1-4 agents; histories (1-30 ops, one in five 60-160 ops) of add(pos), move(delta: small / edge-crossing / multi-lap +-(3*extent+1) / far "
         "+-1e9 / mixed signs), move_to(pos in or out of range), remove. 'exact' cases use integers (grid) or dyadic k/8 floats "
         "(continuous) and an exact Fraction model per positive axis: wrap -> (old+delta) mod extent, else clamp to "
         "[0, extent-offset]; accepted placement/move_to lands exactly, rejected ones (generic error / IndexError) change "
@@ -261,7 +261,7 @@ def strategy(tier):
             return draw(wone_of(small, small, special, special, st.just(0)))
         a = st.integers(0, 3)
         ops = []
-        n = draw(st.integers(1, 30))
+        n = draw(wone_of(st.integers(1, 30), st.integers(1, 30), st.integers(1, 30), st.integers(1, 30), st.integers(60, 160)))
         for _ in range(n):
             kind_op = draw(st.sampled_from(["add", "add", "move", "move", "move", "move", "move_to", "move_to", "remove"]))
             if kind_op == "add":
